@@ -5,6 +5,9 @@
 //! path and compared with the naive evaluator of `qshared`.
 #[path = "qshared/mod.rs"]
 mod qshared;
+/// ExistsQuery family (typed / str / facet / JSON fast fields, json_subpaths) - own schema and oracle
+#[path = "c03_util/mod.rs"]
+mod c03_util;
 
 use std::collections::BTreeSet;
 
@@ -12,7 +15,7 @@ use qshared::*;
 use serde_json::{json, Value};
 use tantivy::collector::{Count, DocSetCollector, FilterCollector, MultiCollector, TopDocs};
 use tantivy::query::Query;
-use tantivy::{DocAddress, Searcher};
+use tantivy::{DocAddress, Order, Searcher};
 use tvmon::report::*;
 use tvmon::rng::Rng;
 
@@ -23,14 +26,20 @@ enum Obs {
     Cnt(usize),
 }
 
+/// what the collector panel needs: a searcher, the id of every doc address, the number of
+/// addresses (limit of the rankings). The schema must have the u64 fast field `id`.
+pub struct View {
+    pub searcher: Searcher,
+    pub table: Vec<Vec<u64>>,
+    pub total_docs: usize,
+}
+
 struct Layout<'a> {
-    searcher: Searcher,
-    table: Vec<Vec<u64>>,
+    view: View,
     fields: &'a Fields,
     live: Vec<&'a MDoc>,
     corpus: &'a Corpus,
     name: &'static str,
-    total_docs: usize,
 }
 
 fn filter3(id: u64) -> bool {
@@ -40,7 +49,7 @@ fn filter2(id: u64) -> bool {
     id % 2 == 0
 }
 
-fn ids_of<I: IntoIterator<Item = DocAddress>>(l: &Layout, it: I) -> Result<Obs, String> {
+fn ids_of<I: IntoIterator<Item = DocAddress>>(l: &View, it: I) -> Result<Obs, String> {
     let mut s = BTreeSet::new();
     let mut dup = false;
     for a in it {
@@ -53,7 +62,7 @@ fn ids_of<I: IntoIterator<Item = DocAddress>>(l: &Layout, it: I) -> Result<Obs, 
 }
 
 /// every collector path; names are stable (they appear in signatures)
-fn panel(l: &Layout, q: &dyn Query, full: bool) -> Vec<(&'static str, Result<Obs, String>)> {
+pub fn panel(l: &View, q: &dyn Query, full: bool) -> Vec<(&'static str, Result<Obs, String>)> {
     let s = &l.searcher;
     let limit = l.total_docs.max(1);
     let e = |e: tantivy::TantivyError| {
@@ -70,8 +79,43 @@ fn panel(l: &Layout, q: &dyn Query, full: bool) -> Vec<(&'static str, Result<Obs
             .map_err(e)
             .and_then(|r| ids_of(l, r.into_iter().map(|x| x.1))),
     ));
+    // ranking by a fast field: the no-scoring route of a ranking collector (block collection)
+    out.push((
+        "topdocs_fastfield",
+        s.search(q, &TopDocs::with_limit(limit).order_by_fast_field::<u64>("id", Order::Asc))
+            .map_err(e)
+            .and_then(|r| ids_of(l, r.into_iter().map(|x| x.1))),
+    ));
     if !full {
         return out;
+    }
+    out.push((
+        "filter2.topdocs_fastfield",
+        s.search(
+            q,
+            &FilterCollector::new(
+                "id".to_string(),
+                filter2,
+                TopDocs::with_limit(limit).order_by_fast_field::<u64>("id", Order::Desc),
+            ),
+        )
+        .map_err(e)
+        .and_then(|r| ids_of(l, r.into_iter().map(|x| x.1))),
+    ));
+    {
+        // FilterCollector over a MultiCollector of non-scoring collectors
+        let mut mc = MultiCollector::new();
+        let h1 = mc.add_collector(Count);
+        let h2 = mc.add_collector(TopDocs::with_limit(limit).order_by_fast_field::<u64>("id", Order::Asc));
+        match s.search(q, &FilterCollector::new("id".to_string(), filter3, mc)) {
+            Ok(mut fruits) => {
+                let r1 = h1.extract(&mut fruits);
+                let r2 = h2.extract(&mut fruits);
+                out.push(("filter3.multi.count", Ok(Obs::Cnt(r1))));
+                out.push(("filter3.multi.topdocs_fastfield", ids_of(l, r2.into_iter().map(|x| x.1))));
+            }
+            Err(err) => out.push(("filter3.multi.count", Err(e(err)))),
+        }
     }
     {
         let mut mc = MultiCollector::new();
@@ -302,7 +346,7 @@ fn outcome(l: &Layout, q: &Q, full: bool) -> Outcome {
             return out;
         }
     };
-    match guarded(|| panel(l, tq.as_ref(), full)) {
+    match guarded(|| panel(&l.view, tq.as_ref(), full)) {
         Err(p) => {
             out.cat = if p.in_harness() { Cat::HarnessPanic(format!("{}: {}", p.location, p.message)) } else { Cat::Panic(p.sig()) };
             out.panic = Some(p);
@@ -363,7 +407,7 @@ fn is_union_like(q: &Q) -> bool {
 /// value-free, seed-stable name of the minimal failing node: leaf kind, or for a composite node
 /// its constructor plus a few coarse structural features
 fn composite_sig(min: &Q, l: &Layout) -> String {
-    let big = l.searcher.segment_readers().iter().any(|r| r.max_doc() > 4096);
+    let big = l.view.searcher.segment_readers().iter().any(|r| r.max_doc() > 4096);
     match min {
         Q::Bool { clauses, msm } => {
             let mut f = String::from("bool");
@@ -402,6 +446,8 @@ fn family(n: &str) -> &'static str {
         "weight-count"
     } else if n.contains("count") {
         "collected-count"
+    } else if n.contains("topdocs_fastfield") {
+        "ranked-by-fastfield"
     } else if n.contains("topdocs") {
         "scored"
     } else {
@@ -758,13 +804,11 @@ fn run_case(case: u64, rng: &mut Rng, rep: &mut Report, quick: bool) {
         }
         rep.observe("segments", nseg.min(5).to_string());
         let layout = Layout {
-            searcher,
-            table,
+            view: View { searcher, table, total_docs },
             fields: &built.fields,
             live: live.clone(),
             corpus: &corpus,
             name: if round == 0 { "as-committed" } else if merge_plan == 2 { "merged-all" } else { "merged-two" },
-            total_docs,
         };
         for (i, q) in queries.iter().enumerate() {
             let t0 = std::time::Instant::now();
